@@ -496,8 +496,11 @@ class Canon:
         ns = guard_stack(f.node, node) or []
         fors = [i for i, x in enumerate(ns) if x[0] == 'for']
         if fors and not any(x[0] == 'while' for x in ns[fors[-1] + 1:]):
+            from .index import loop_leaves_early
             loop = ns[fors[-1]][1]
             conds = [x for x in ns[fors[-1] + 1:] if x[0] == 'if']
+            if loop_leaves_early(loop):
+                loop = None      # a break/return drops later elements: not a comprehension
         if loop is None:
             return None
         cs = ''
@@ -542,6 +545,9 @@ class Canon:
             if not fors or any(x[0] == 'while' for x in ns[fors[-1] + 1:]):
                 return None
             loop = ns[fors[-1]][1]
+            from .index import loop_leaves_early
+            if loop_leaves_early(loop):
+                return None
             conds = [(x[1], x[2]) for x in ns[fors[-1] + 1:] if x[0] == 'if']
             return (node.args[0], loop.iter, conds, [x.id for x in ast.walk(loop.target) if isinstance(x, ast.Name)])
         return None
